@@ -245,6 +245,12 @@ class ReplacementFrontend(ConstrainedFrontend):
         return super()._concrete_constraint(e)
 
     def _add(self, constraints, invalidate_cache=True):
+        added = super()._add(constraints)
+        # Apply the replacements known so far *before* deriving new ones from these constraints: a constraint that
+        # defines a replacement (x == 5) would otherwise be rewritten by its own replacement to a tautology (5 == 5)
+        # and never reach the actual frontend, which would then accept models that violate it.
+        cr = self._replace_list(added)
+
         if self._auto_replace:
             for c in constraints:
                 # the badass thing here would be to use the *replaced* constraint, but
@@ -277,8 +283,6 @@ class ReplacementFrontend(ConstrainedFrontend):
 
                         self.add_replacement(old, rold.intersection(new))
 
-        added = super()._add(constraints)
-        cr = self._replace_list(added)
         if not self._allow_symbolic and any(c.symbolic for c in cr):
             raise ClaripyFrontendError(
                 "symbolic constraints made it into ReplacementFrontend with allow_symbolic=False"
